@@ -63,3 +63,280 @@ Definition make_groups (budget : Z) : res unit :=
 Inductive rclass := CkOk | CkErr | CkPanic | CkHang.
 Definition class_of {A} (r : res A) : rclass :=
   match r with Ok _ => CkOk | Err => CkErr | Panic => CkPanic | OutOfFuel => CkHang end.
+
+(* ======================================================================== *)
+(* Session 3: more readers of untrusted input inside the model. Everything   *)
+(* below is new; nothing above was changed.                                  *)
+From Apko Require Export Generated.C15Sites.
+
+(* l[i] for a Go int i: negative or beyond the end = panic *)
+Definition lidx {A} (l : list A) (i : Z) : res A :=
+  if (i <? 0)%Z then Panic
+  else match nth_error l (Z.to_nat i) with Some x => Ok x | None => Panic end.
+(* the bounds test of v[i] alone, on a slice of length len *)
+Definition zidx (len i : Z) : res unit := if ((0 <=? i) && (i <? len))%Z then Ok tt else Panic.
+(* a literal that must be one byte (separator / cutset read from the source) *)
+Definition only_char (s : string) (dflt : ascii) : ascii :=
+  match s with String c EmptyString => c | _ => dflt end.
+
+(* ---- strings.Cut, strings.Trim (one-byte separator / cutset) ------------------ *)
+Fixpoint cut_char (c : ascii) (s : string) : option (string * string) :=
+  match s with
+  | EmptyString => None
+  | String a s' =>
+      if Ascii.eqb a c then Some (EmptyString, s')
+      else match cut_char c s' with Some (b, r) => Some (String a b, r) | None => None end
+  end.
+Fixpoint trim_left_char (c : ascii) (s : string) : string :=
+  match s with String a s' => if Ascii.eqb a c then trim_left_char c s' else s | EmptyString => EmptyString end.
+Fixpoint trim_right_char (c : ascii) (s : string) : string :=
+  match s with
+  | EmptyString => EmptyString
+  | String a s' => match trim_right_char c s' with
+                   | EmptyString => if Ascii.eqb a c then EmptyString else String a EmptyString
+                   | r => String a r
+                   end
+  end.
+Definition trim_char (c : ascii) (s : string) : string := trim_right_char c (trim_left_char c s).
+
+(* ---- build/sbom.go readReleaseData ------------------------------------------------
+   bufio.Scanner with its default token limit (the source never calls Buffer);
+   empty lines and lines starting with "#" are skipped; a line without "=" is an
+   error; kv[before] = strings.Trim(after, <one double quote>); scanner.Err() is looked at. *)
+Record release := mkRel { rl_id : string; rl_name : string; rl_pretty : string; rl_version : string }.
+Definition kvget (k : string) (kv : list (string * string)) : string :=
+  match alookup k kv with Some v => v | None => "" end.
+Fixpoint release_lines (ls : list string) (kv : list (string * string)) : res (list (string * string)) :=
+  match ls with
+  | [] => Ok kv
+  | l :: ls' =>
+      if l =? "" then release_lines ls' kv
+      else if has_prefix release_comment_prefix l then release_lines ls' kv
+      else match cut_char (only_char release_cut_sep "=") l with
+           | None => Err
+           | Some (b, a) => release_lines ls' (aset b (trim_char (only_char release_trim_cutset """") a) kv)
+           end
+  end.
+(* the token limit: bufio.MaxScanTokenSize unless the source calls Buffer (then the
+   model does not know it: 0 makes every comparison with the implementation fail) *)
+Definition release_max_token : N := if release_sets_scanner_buffer then 0%N else default_max_token.
+Definition read_release_max (max : N) (s : string) : res release :=
+  let '(lines, toolong) := scan_lines max s in
+  do kv <- release_lines lines [];
+  if toolong && release_checks_scanner_err then Err
+  else Ok (mkRel (kvget "ID" kv) (kvget "NAME" kv) (kvget "PRETTY_NAME" kv) (kvget "VERSION_ID" kv)).
+Definition read_release : string -> res release := read_release_max release_max_token.
+
+(* ---- strings.Fields on arbitrary bytes ---------------------------------------------
+   unicode.IsSpace over the UTF-8 decoding of the string: the ASCII spaces, U+0085,
+   U+00A0, U+1680, U+2000..U+200A, U+2028, U+2029, U+202F, U+205F, U+3000. An
+   invalid byte decodes to U+FFFD, which is no space; the encodings below start with
+   a lead byte, so they can only begin where Go's decoder begins a rune.
+   [space_len s] = number of bytes of the white-space rune at the head of s (0: none). *)
+Definition byte_at (s : string) (i : nat) : N :=
+  match String.get i s with Some c => N_of_ascii c | None => 256%N end.
+Definition space_len (s : string) : nat :=
+  let b0 := byte_at s 0 in let b1 := byte_at s 1 in let b2 := byte_at s 2 in
+  if (((9 <=? b0) && (b0 <=? 13)) || (b0 =? 32))%N then 1
+  else if ((b0 =? 194) && ((b1 =? 133) || (b1 =? 160)))%N then 2
+  else if ((b0 =? 225) && (b1 =? 154) && (b2 =? 128))%N then 3
+  else if ((b0 =? 226) && (b1 =? 128) && (((128 <=? b2) && (b2 <=? 138)) || (b2 =? 168) || (b2 =? 169) || (b2 =? 175)))%N then 3
+  else if ((b0 =? 226) && (b1 =? 129) && (b2 =? 159))%N then 3
+  else if ((b0 =? 227) && (b1 =? 128) && (b2 =? 128))%N then 3
+  else 0.
+(* which bytes belong to a white-space rune; [skip] = bytes of the current one still to mark *)
+Fixpoint space_mask (s : string) (skip : nat) : list bool :=
+  match s with
+  | EmptyString => []
+  | String _ s' =>
+      match skip with
+      | S k => true :: space_mask s' k
+      | O => match space_len s with
+             | O => false :: space_mask s' O
+             | S k => true :: space_mask s' k
+             end
+      end
+  end.
+(* the maximal runs of unmarked bytes *)
+Fixpoint fields_mask (s : string) (m : list bool) : list string :=
+  match s, m with
+  | String c s', false :: m' =>
+      match s', m' with
+      | String _ _, false :: _ =>
+          match fields_mask s' m' with
+          | f :: fs => String c f :: fs
+          | [] => [String c EmptyString]
+          end
+      | _, _ => String c EmptyString :: fields_mask s' m'
+      end
+  | String _ s', _ :: m' => fields_mask s' m'
+  | _, _ => []
+  end.
+Definition go_fields (s : string) : list string := fields_mask s (space_mask s 0).
+
+(* ---- apk/index.go GetRepositoryIndexes: "@tag url" lines ------------------------------
+   if strings.HasPrefix(repo, "@") { parts := strings.Fields(repo); if len(parts) < 2 { error };
+   repoName = parts[0][1:]; repoURL = parts[1] }  -- result: (name, url) *)
+Definition repo_line (repo : string) : res (string * string) :=
+  if has_prefix repo_line_pin_prefix repo then
+    let parts := go_fields repo in
+    if (List.length parts <? 2)%nat then Err else
+    do p0 <- lidx parts 0;
+    do nm <- gslice_from p0 1;
+    do u <- lidx parts 1;
+    Ok (nm, u)
+  else Ok ("", repo).
+
+(* ---- build/lock.go unify: the constraint splitter ---------------------------------------
+   strings.IndexAny with ASCII sets is a byte search. *)
+Fixpoint index_any (chars s : string) : option nat :=
+  match s with
+  | EmptyString => None
+  | String c s' =>
+      if has_char c chars then Some O
+      else match index_any chars s' with Some i => Some (S i) | None => None end
+  end.
+Definition has_suffix_str (suf s : string) : bool :=
+  (String.length suf <=? String.length s)%nat && (sdrop (String.length s - String.length suf) s =? suf).
+Definition trim_suffix_str (suf s : string) : string :=       (* strings.TrimSuffix(s, suf) *)
+  if has_suffix_str suf s then stake (String.length s - String.length suf) s else s.
+(* (name, version, pinned) of one original package line *)
+Definition unify_split (orig : string) : res (string * string * string) :=
+  do nv <- match index_any c15_unify_constraint_delims orig with
+           | Some i => do n <- gslice_to orig i; do v <- gslice_from orig i; Ok (n, v)
+           | None => Ok (orig, "")
+           end;
+  do pinned <- match index_any c15_unify_pin_delims orig with
+               | Some i => gslice_from orig i
+               | None => Ok ""
+               end;
+  Ok (trim_suffix_str pinned (fst nv), trim_suffix_str pinned (snd nv), pinned).
+(* unify reads inputs[0] and inputs[1:] once there is at least one original line *)
+Definition unify_inputs (n_orig n_inputs : nat) : res unit :=
+  if (n_orig =? 0)%nat then Ok tt else
+  do _ <- vidx n_inputs 0;
+  if (1 <=? n_inputs)%nat then Ok tt else Panic.
+(* LockImageConfiguration: parts := regex.FindAllStringSubmatch(prov, -1);
+   if len(parts) == 0 || len(parts[0]) < 2 { continue }; parts[0][1] *)
+Definition lock_provided_skel (n_parts len0 : nat) : res unit :=
+  if (n_parts =? 0)%nat then Ok tt else
+  do _ <- vidx n_parts 0;
+  if (len0 <? 2)%nat then Ok tt else
+  do _ <- vidx n_parts 0; vidx len0 1.
+
+(* ---- checksumFromHeader (install.go, expandapk/utility.go, tarfs/fs.go) -------------------
+   the PAX record APK-TOOLS.checksum.SHA1: absent -> no checksum; "Q1" + base64, or hex.
+   HasPrefix / TrimPrefix, no slicing. *)
+Section HeaderChecksum.
+Variable b64dec : string -> option (list N).
+Variable hexdec : string -> option (list N).
+Definition checksum_from_header_with (prefix trim : string) (pax : option string) : res (option (list N)) :=
+  match pax with
+  | None => Ok None
+  | Some v =>
+      if has_prefix prefix v then
+        do c <- from_opt (b64dec (if has_prefix trim v then sdrop (String.length trim) v else v)); Ok (Some c)
+      else do c <- from_opt (hexdec v); Ok (Some c)
+  end.
+Definition checksum_from_header : option string -> res (option (list N)) := checksum_from_header_with "Q1" "Q1".
+End HeaderChecksum.
+
+(* ---- expandapk.go ExpandApk: from the number of gzip members to the section indices ---------
+   switch numGzipStreams { case 3: 0,1,2; case 2: -1,0,1; default: error }; signed := sig >= 0;
+   gzipStreams[ctl], hashes[ctl], sizes[ctl], ...[pkg], and under `if signed` ...[sig].
+   The table, what the default arm does and whether the signature indexings are guarded
+   are read from the source. Result: the Signed flag. *)
+Definition tbl_lookup (n : Z) (t : list (Z * (Z * Z * Z))) : option (Z * Z * Z) :=
+  match find (fun r => (fst r =? n)%Z) t with Some r => Some (snd r) | None => None end.
+Definition expand_select_with (tbl : list (Z * (Z * Z * Z))) (default_err sig_guarded : bool) (n : Z) : res bool :=
+  do idx <- match tbl_lookup n tbl with
+            | Some x => Ok x
+            | None => if default_err then Err else Ok (0, 0, 0)%Z
+            end;
+  let '(sg, ct, pk) := idx in
+  let signed := (0 <=? sg)%Z in
+  do _ <- zidx n ct;
+  do _ <- zidx n pk;
+  do _ <- (if signed || negb sig_guarded then zidx n sg else Ok tt);
+  Ok signed.
+Definition expand_sig_guarded : bool := (snd expand_sig_index_guarded =? 0)%nat.
+Definition expand_select : Z -> res bool :=
+  expand_select_with expand_switch expand_switch_default_errors expand_sig_guarded.
+
+(* the loop over the gzip members. A member is: a valid gzip stream holding a tar whose
+   first entry is a signature (MSign) or something else (MPlain), a valid gzip stream
+   holding no tar entry (MEmpty), or a stream that fails to decompress (MBad).
+   [garbage]: bytes that are no gzip header follow the last member.
+   expandApkWriter.Next looks into the first member when the second one starts
+   (maxStreams 2 -> 3 for a signature); when streamId+1 >= maxStreams the gzip
+   reader is left in multistream mode and swallows every remaining member as the
+   data section. Result: len(gzipStreams). *)
+Inductive mkind := MSign | MPlain | MEmpty | MBad.
+Definition mkind_bad (m : mkind) : bool := match m with MBad => true | _ => false end.
+Fixpoint expand_loop (ms : list mkind) (garbage : bool) (first : option mkind)
+  (stream_id : Z) (maxs : Z) (count : nat) : res nat :=
+  (* sw.Next() *)
+  do maxs' <- (if (stream_id =? 0)%Z then
+                 match first with
+                 | Some MSign => Ok (Z.of_nat (snd expand_max_streams))
+                 | Some MPlain => Ok maxs
+                 | _ => Err
+                 end
+               else Ok maxs);
+  let sid := (stream_id + 1)%Z in
+  let reached := (maxs' <=? sid + 1)%Z in
+  match ms with
+  | [] => if garbage then Err else Ok count                (* io.EOF from the gzip reader: break *)
+  | m :: ms' =>
+      if reached then
+        (* multistream: the rest of the input is one data section *)
+        if existsb mkind_bad (m :: ms') || garbage then Err else Ok (S count)
+      else
+        if mkind_bad m then Err
+        else expand_loop ms' garbage (match first with None => Some m | f => f end) sid maxs' (S count)
+  end.
+Definition expand_apk (ms : list mkind) (garbage : bool) : res bool :=
+  do n <- expand_loop ms garbage None (-1)%Z (Z.of_nat (fst expand_max_streams)) O;
+  expand_select (Z.of_nat n).
+
+(* ---- expandapk/split.go Split, apk/package.go ParsePackageInfo -----------------------------
+   Split returns (optional signature) + control + rest; ParsePackageInfo reads split[0], and
+   split[1] when len(split) == 3. *)
+Definition split_parts (ms : list mkind) : res nat :=
+  match ms with
+  | MSign :: rest =>
+      match rest with
+      | [] => Err                                   (* gzi.Reset: EOF *)
+      | MBad :: _ => Err
+      | _ :: _ => Ok (fst split_appends + snd split_appends)%nat
+      end
+  | MPlain :: _ => Ok (fst split_appends)
+  | _ => Err                                        (* no member, no first tar header, corrupt *)
+  end.
+Definition pkginfo_select (n : nat) : res unit :=
+  do _ <- vidx n 0;
+  if (n =? 3)%nat then vidx n 1 else Ok tt.
+
+(* ---- installed.go parseInstalledPerms is Formats.parse_perms (3 parts or an error) --------- *)
+
+(* ---- apk/index.go parseRepositoryIndex ---------------------------------------------------------
+   matches := signatureFileRegex.FindStringSubmatch(name); if len(matches) != 3 { error };
+   matches[2], matches[1];  readBytes := len(b) - buf.Len(); b[readBytes:] *)
+Definition sig_name_skel (matched : bool) : res unit :=
+  let n := if matched then submatch_len signature_file_regex else O in
+  if negb (n =? 3)%nat then Err else
+  do _ <- vidx n 2; vidx n 1.
+Definition reader_len (size pos : N) : N := if (size <=? pos)%N then 0%N else (size - pos)%N.   (* bytes.Reader.Len *)
+Definition index_data_slice (size pos : N) : res N :=
+  let read_bytes := (Z.of_N size - Z.of_N (reader_len size pos))%Z in
+  if ((0 <=? read_bytes) && (read_bytes <=? Z.of_N size))%Z then Ok (Z.to_N read_bytes) else Panic.
+
+(* ---- build/types ParseArchitectures: len(in) == 1 && in[0] == "all" / "host" ---------------------- *)
+Definition parse_archs_skel (n : nat) : res unit :=
+  do _ <- (if (n =? 1)%nat then vidx n 0 else Ok tt);
+  if (n =? 1)%nat then do _ <- vidx n 0; vidx n 0 else Ok tt.
+
+(* ---- the repair of finding C15-F4 (fixes/C15-F4.patch, not applied): sortTarHeaders skips
+   an entry whose cleaned name is "." ------------------------------------------------------------ *)
+Definition not_dot (h : hdr) : bool := negb (clean (h_name h) =? ".").
+Definition sort_headers_fixed (hs : list hdr) : res (list hdr) := sort_headers (filter not_dot hs).
